@@ -11,8 +11,8 @@ if [ -z "$ids" ]; then
 fi
 for id in $ids; do
   d=seeded/$id
-  res=$(SKIP_SUITE=1 QUICK_ONLY=1 nice -n 10 tools/try_seeded.sh $d/patch.diff - $ALL 2>&1 | grep '^RESULT check=')
-  caught=$(echo "$res" | grep CAUGHT | sed 's/RESULT check=\([A-Z0-9]*\).*/\1/' | tr '\n' ' ')
+  res=$(SKIP_SUITE=1 QUICK_ONLY=1 nice -n 10 tools/try_seeded.sh $d/patch.diff - $ALL 2>&1 | grep -a '^RESULT check=')
+  caught=$(echo "$res" | grep -a CAUGHT | sed 's/RESULT check=\([A-Z0-9]*\).*/\1/' | tr '\n' ' ')
   grep -v "^$id " $out > $out.tmp; mv $out.tmp $out
   echo "$id caught_by_quick: $caught" | tee -a $out
   sort -o $out $out
